@@ -28,7 +28,7 @@ def cases(tier, seed):
     out = []
     reps = 1 if tier == 'quick' else 60
     for prog in progs.cat():
-        if {'fancy', 'nonunique'} & prog.tags:
+        if {'fancy', 'augmented', 'nonunique'} & prog.tags:
             continue        # advanced (list) indexing is outside the property's program class (basic indexing and views)
         for (D, P) in DPs(tier):
             if prog.maxD and D > prog.maxD:
@@ -113,7 +113,7 @@ def _twodep(ctx, p, rng):
 
 def required():
     # 'refused': the tracer has no method / no pb_ for it and raises (the documented refusal), counted as skips
-    return ['single:' + p.name for p in progs.cat() if not ({'nopb', 'refused', 'fancy', 'nonunique'} & p.tags) and p.name not in ('dot:TM',)] + ['comp', 'two-dependents']
+    return ['single:' + p.name for p in progs.cat() if not ({'nopb', 'refused', 'fancy', 'augmented', 'nonunique'} & p.tags) and p.name not in ('dot:TM',)] + ['comp', 'two-dependents']
 
 
 NOT_TRACEABLE_OK = True
